@@ -168,3 +168,23 @@ Theorem C14_tag_regex_attempt_partial :
   (forall pre s post cp, matches E tag_re pre s post cp ->
      exists k v, cp = [(1%nat, k); (2%nat, v)] /\ try_tag (s ++ post) = TagOk k v (length s)).
 Proof. exact tag_attempt_partial. Qed.
+
+(* ---- the same about format_move REGENERATED FROM THE SOURCE (gen/PtnGen.v, harness/py2coq.py against model/PySem.v; proofs/PtnGenEq.v); parse_move/PTN.parse are tied through the regex semantics above ---- *)
+From TV Require Import model.Tak model.PySem model.Ptn proofs.PtnProofs proofs.PtnGenEq.
+From TV Require gen.GameGen gen.PtnGen.
+(* the translated format_move IS the model's on the domain *)
+Theorem C14_source_format_move_eq :
+  forall m, fm_domain m -> PtnGen.format_move m = Ok (Ptn.format_move m).
+Proof. exact gen_format_move_eq. Qed.
+(* outside the domain the code raises where the model carries on: chr out of range, a slide without tuple, a drop whose
+   digit is not a code point *)
+Theorem C14_source_format_move_crashes :
+  PtnGen.format_move (mkMove (-98) 0 PlaceFlat None) = Crash ValueError /\
+  PtnGen.format_move (mkMove 0 0 SlideLeft None) = Crash TypeError /\
+  PtnGen.format_move (mkMove 0 0 SlideUp (Some [1; -49])) = Crash ValueError.
+Proof. exact gen_format_move_crashes. Qed.
+(* C14 transported: writing a move of the universe with the translated writer and reading it back returns the move *)
+Theorem C14_source_parse_format_move :
+  forall m, wf_move8 m ->
+  exists s, PtnGen.format_move m = Ok s /\ parse_move s = Accept m.
+Proof. exact gen_parse_format_move. Qed.
